@@ -502,7 +502,10 @@ Section EXACT.
       forall k v, List.In (k, v) (t_labels s) ->
       exists r, List.In r gin /\ g_fp r = t_fp s /\ g_key r = k /\ g_val r = v /\ (D <= g_date r)%Z
                 /\ (g_type r = 2 \/ g_type r = 0)%Z;
-    fp_functional : forall s1 s2, List.In s1 series -> List.In s2 series -> t_fp s1 = t_fp s2 -> t_labels s1 = t_labels s2;
+    (* among the METRIC series rows a fingerprint stands for one label set; the series rows of log streams (type 1) are free:
+       a log stream may share a fingerprint with a metric series (32-bit Bernstein fingerprints) under another label set *)
+    fp_functional : forall s1 s2, List.In s1 series -> List.In s2 series ->
+      (t_type s1 = 2 \/ t_type s1 = 0)%Z -> (t_type s2 = 2 \/ t_type s2 = 0)%Z -> t_fp s1 = t_fp s2 -> t_labels s1 = t_labels s2;
     keys_unique : forall s, List.In s series -> NoDup (map fst (t_labels s))
   }.
 
@@ -606,8 +609,8 @@ Section EXACT.
           { rewrite <- Epos. unfold pos_clauses, pos_ms. apply in_map. apply in_map. apply filter_In. split; [assumption|].
             now rewrite Hacc. }
           destruct (Hsm _ Hc) as [r [Hr [Hfp [Hd [Ht Hev]]]]].
-          destruct (index_sound _ _ _ Hdb r Hr Hd Ht) as [s [Hs [Hsfp' [_ [_ Hlab]]]]].
-          assert (Hl : t_labels s = t_labels s0) by (apply (fp_functional _ _ _ Hdb); congruence).
+          destruct (index_sound _ _ _ Hdb r Hr Hd Ht) as [s [Hs [Hsfp' [_ [Hst' Hlab]]]]].
+          assert (Hl : t_labels s = t_labels s0) by (apply (fp_functional _ _ _ Hdb); try assumption; congruence).
           rewrite Hl in Hlab.
           unfold eval_clause in Hev. apply andb_prop in Hev. destruct Hev as [Hk Hv].
           rewrite key_prom in Hk. apply String.eqb_eq in Hk. rewrite Hk in Hlab.
@@ -637,8 +640,8 @@ Section EXACT.
       + intros [n [r [Hn [Hr [Hrfp [Hrd [Hrt Hev]]]]]]].
         unfold neg_clauses, neg_ms in Hn. apply in_map_iff in Hn. destruct Hn as [m [<- Hm]].
         apply filter_In in Hm. destruct Hm as [Hm _]. specialize (Hpm m Hm).
-        destruct (index_sound _ _ _ Hdb r Hr Hrd Hrt) as [s' [Hs' [Hsfp' [_ [_ Hlab]]]]].
-        assert (Hl : t_labels s' = t_labels s) by (apply (fp_functional _ _ _ Hdb); congruence).
+        destruct (index_sound _ _ _ Hdb r Hr Hrd Hrt) as [s' [Hs' [Hsfp' [_ [Hst' Hlab]]]]].
+        assert (Hl : t_labels s' = t_labels s) by (apply (fp_functional _ _ _ Hdb); try assumption; congruence).
         rewrite Hl in Hlab.
         unfold eval_clause in Hev. apply andb_prop in Hev. destruct Hev as [Hk Hv].
         rewrite key_inverse in Hk. apply String.eqb_eq in Hk. rewrite Hk in Hlab.
@@ -1225,7 +1228,7 @@ Lemma gin_of_db_ok D series :
   (forall s, List.In s series -> NoDup (map fst (t_labels s))) ->
   db_ok D (gin_of series) series.
 Proof.
-  intros Hf Hk. constructor; [| |exact Hf|exact Hk].
+  intros Hf Hk. constructor; [| |intros s1 s2 H1 H2 _ _; now apply Hf|exact Hk].
   - intros r Hr Hd Ht. apply gin_of_in in Hr. destruct Hr as [s [[k v] [Hs [Hkv ->]]]]. cbn in *.
     exists s. repeat split; assumption.
   - intros s Hs Hd Ht k v Hkv.
@@ -1870,20 +1873,26 @@ Proof.
     assert (Hr : List.In fr (rev fetch)) by (rewrite <- in_rev; exact Hin). specialize (Hn Hr). discriminate.
 Qed.
 
+Lemma metric_row_spec s : metric_row s = true <-> (t_type s = 2 \/ t_type s = 0)%Z.
+Proof. unfold metric_row. rewrite orb_true_iff, !Z.eqb_eq. tauto. Qed.
+
 Lemma labels_get_own D1 D2 fps series s :
-  (forall s1 s2, List.In s1 series -> List.In s2 series -> t_fp s1 = t_fp s2 -> t_labels s1 = t_labels s2) ->
-  List.In s series -> (D1 <= t_date s)%Z -> (t_date s <= D2)%Z -> List.In (t_fp s) fps ->
+  (forall s1 s2, List.In s1 series -> List.In s2 series -> (t_type s1 = 2 \/ t_type s1 = 0)%Z -> (t_type s2 = 2 \/ t_type s2 = 0)%Z ->
+     t_fp s1 = t_fp s2 -> t_labels s1 = t_labels s2) ->
+  List.In s series -> (t_type s = 2 \/ t_type s = 0)%Z -> (D1 <= t_date s)%Z -> (t_date s <= D2)%Z -> List.In (t_fp s) fps ->
   labels_get (fetch_rows D1 D2 fps series) (t_fp s) = sort_labels (sort_labels (t_labels s)).
 Proof.
-  intros Hf Hs Hd1 Hd2 Hfp. unfold labels_get.
+  intros Hf Hs Hty Hd1 Hd2 Hfp. unfold labels_get.
   assert (Hspec := fingerprints_has_spec (fetch_rows D1 D2 fps series) (t_fp s)).
   destruct (fingerprints_has (fetch_rows D1 D2 fps series) (t_fp s)) as [l|].
   - destruct Hspec as [fr [Hin [Hfr ->]]]. unfold fetch_rows in Hin. apply in_map_iff in Hin.
-    destruct Hin as [s' [<- Hs']]. apply filter_In in Hs'. destruct Hs' as [Hs' _]. cbn [fst snd] in *.
-    now rewrite (Hf s' s Hs' Hs Hfr).
+    destruct Hin as [s' [<- Hs']]. apply filter_In in Hs'. destruct Hs' as [Hs' Hok']. cbn [fst snd] in *.
+    apply andb_prop in Hok'. destruct Hok' as [_ Hty']. apply metric_row_spec in Hty'.
+    now rewrite (Hf s' s Hs' Hs Hty' Hty Hfr).
   - exfalso. apply (Hspec (t_fp s, t_labels s)); [|reflexivity].
     unfold fetch_rows. apply in_map_iff. exists s. split; [reflexivity|]. apply filter_In. split; [assumption|].
-    rewrite !andb_true_iff, !Z.leb_le. split; [tauto|]. apply existsb_exists. exists (t_fp s). split; [assumption|apply N.eqb_refl].
+    rewrite !andb_true_iff, !Z.leb_le, metric_row_spec. split; [|assumption]. split; [tauto|].
+    apply existsb_exists. exists (t_fp s). split; [assumption|apply N.eqb_refl].
 Qed.
 
 Lemma NoDup_map_inj_on {A B} (g : A -> B) l :
@@ -1913,9 +1922,11 @@ Section FINAL.
     use_raw_data h = true -> h_step h = 0%Z ->
     db_ok (day_from h) (d_gin db) (d_series db) ->
     selective re_full ms = true -> (List.length ms <= 63)%nat ->
-    (* a sample inside the window belongs to a series announced between the two date bounds of the labels request *)
+    (* a sample inside the window belongs to a METRIC series announced between the two date bounds of the labels request
+       (the writer announces a series per sample type; the request reads metric-typed rows only) *)
     (forall sm, List.In sm (d_samples db) -> window_ok h sm = true ->
-       exists s, List.In s (d_series db) /\ t_fp s = sm_fp sm /\ (day_from h <= t_date s)%Z /\ (t_date s <= day_to h)%Z) ->
+       exists s, List.In s (d_series db) /\ t_fp s = sm_fp sm /\ (t_type s = 2 \/ t_type s = 0)%Z /\
+                 (day_from h <= t_date s)%Z /\ (t_date s <= day_to h)%Z) ->
     (* stored series with one label set (as the sorted list) carry one fingerprint: the fingerprint is a hash of the labels *)
     (forall s1 s2, List.In s1 (d_series db) -> List.In s2 (d_series db) ->
        sort_labels (sort_labels (t_labels s1)) = sort_labels (sort_labels (t_labels s2)) -> t_fp s1 = t_fp s2) ->
@@ -1952,19 +1963,20 @@ Section FINAL.
       rewrite Heq in Hxin. unfold rows_of in Hxin. apply in_map_iff in Hxin. destruct Hxin as [r [_ Hr]].
       apply filter_In in Hr. destruct Hr as [Hr Hfpr]. apply N.eqb_eq in Hfpr. rewrite <- Hfpr. now apply in_map. }
     assert (Hlab : forall s', List.In s' ss -> exists s, List.In s (d_series db) /\ t_fp s = ps_fp s' /\
+                     (t_type s = 2 \/ t_type s = 0)%Z /\
                      getl (ps_fp s') = sort_labels (sort_labels (t_labels s))).
     { intros s' Hs'.
       assert (Hin : List.In (ps_fp s') (map ps_fp ss)) by now apply in_map.
       apply Hfps in Hin. destruct Hin as [_ [sm [Hsm1 [Hw Hfp]]]].
-      destruct (Hrows sm Hsm1 Hw) as [s [Hs [Hsfp [Hd1 Hd2]]]].
-      exists s. split; [assumption|]. split; [congruence|].
+      destruct (Hrows sm Hsm1 Hw) as [s [Hs [Hsfp [Hsty [Hd1 Hd2]]]]].
+      exists s. split; [assumption|]. split; [congruence|]. split; [assumption|].
       unfold getl, fetch. rewrite <- Hfp, <- Hsfp.
       apply labels_get_own; try assumption; [apply (fp_functional _ _ _ Hdb)|].
       rewrite Hsfp, Hfp. now apply Hfpin. }
     assert (Hkeys : NoDup (map (fun s => getl (ps_fp s)) ss)).
     { rewrite <- (map_map ps_fp (fun fp => getl fp)). apply NoDup_map_inj_on; [assumption|].
       intros x y Hx Hy He. apply in_map_iff in Hx. destruct Hx as [sx [<- Hsx]]. apply in_map_iff in Hy. destruct Hy as [sy [<- Hsy]].
-      destruct (Hlab sx Hsx) as [s1 [Hs1 [Hf1 Hl1]]]. destruct (Hlab sy Hsy) as [s2 [Hs2 [Hf2 Hl2]]].
+      destruct (Hlab sx Hsx) as [s1 [Hs1 [Hf1 [_ Hl1]]]]. destruct (Hlab sy Hsy) as [s2 [Hs2 [Hf2 [_ Hl2]]]].
       rewrite Hl1, Hl2 in He. rewrite <- Hf1, <- Hf2. now apply Hdist. }
     set (mk := fun s => {| o_labels := getl (ps_fp s); o_fp := ps_fp s; o_samples := ps_samples s |}).
     assert (Hout : select_series mr rows fetch = isort out_lt (map mk ss)).
@@ -1980,13 +1992,16 @@ Section FINAL.
     - intros o Ho. apply (Permutation_in _ Hperm) in Ho. apply in_map_iff in Ho. destruct Ho as [s' [<- Hs']].
       cbn [mk o_labels o_fp o_samples]. destruct (Hss s' Hs') as [Heq [Hasc _]].
       split; [|split; assumption].
-      destruct (Hlab s' Hs') as [s [Hs [Hsfp Hl]]].
+      destruct (Hlab s' Hs') as [s [Hs [Hsfp [Hsty Hl]]]].
       assert (Hin : List.In (ps_fp s') (map ps_fp ss)) by now apply in_map.
       apply Hfps in Hin. destruct Hin as [Hexp _]. unfold expected_fps in Hexp. apply nodup_In in Hexp.
       apply in_map_iff in Hexp. destruct Hexp as [sm [Hsmfp Hsm]]. apply filter_In in Hsm. destruct Hsm as [Hsm Hok].
-      apply andb_prop in Hok. destruct Hok as [_ Hpm].
+      apply andb_prop in Hok. destruct Hok as [Hmet Hpm].
+      assert (Hsmty : (t_type sm = 2 \/ t_type sm = 0)%Z).
+      { unfold metric_series in Hmet. apply andb_prop in Hmet. destruct Hmet as [_ Hmet]. apply orb_prop in Hmet.
+        destruct Hmet as [Hmet|Hmet]; apply Z.eqb_eq in Hmet; auto. }
       exists s. split; [assumption|]. split; [assumption|]. split.
-      + rewrite (fp_functional _ _ _ Hdb s sm Hs Hsm) by congruence. exact Hpm.
+      + rewrite (fp_functional _ _ _ Hdb s sm Hs Hsm Hsty Hsmty) by congruence. exact Hpm.
       + split; [exact Hl|]. intros kv. rewrite Hl. unfold sort_labels. rewrite !isort_in. tauto.
   Qed.
 End FINAL.
